@@ -144,9 +144,16 @@ def mul_terms(a, b):
     # expanded to a real product by the NRA translation (nra.py)
     a, b = (_int_to_real(a) if z3.is_int(a) else a,
             _int_to_real(b) if z3.is_int(b) else b)
-    if a.get_id() > b.get_id():
-        a, b = b, a
-    return uf('MUL', R, R, R)(a, b)
+    f = uf('MUL', R, R, R)
+    t = f(a, b)
+    if ENG is not None and not z3.eq(a, b):
+        # commutativity instance (the arguments may be syntactically
+        # different forms of the same values elsewhere)
+        key = ('comm', t.get_id())
+        if key not in ENG.decided:
+            ENG.decided[key] = True
+            ENG.add(t == f(b, a))
+    return t
 
 
 def div_terms(a, b):
@@ -216,6 +223,8 @@ class SV(object):
     def _bin(self, o, op, rev=False):
         if isinstance(o, SV):
             ot = o.t
+        elif getattr(o, '__array_priority__', 0) > 1000:
+            return NotImplemented
         elif is_num(o) or hasattr(o, '__index__'):
             if is_special(o):
                 return _special_arith(self, o, op, rev)
@@ -288,6 +297,8 @@ class SV(object):
     def _cmp(self, o, op):
         if isinstance(o, SV):
             ot = o.t
+        elif getattr(o, '__array_priority__', 0) > 1000:
+            return NotImplemented
         elif is_num(o) or hasattr(o, '__index__'):
             if is_special(o):
                 return _special_cmp(self, o, op)
